@@ -154,7 +154,7 @@ def text_lines(nodes_dump):
 
 def norm_line(s):
     """Trim and collapse whitespace runs (nbsp counts as whitespace)."""
-    return ' '.join(s.replace(' ', ' ').split())
+    return ' '.join(s.split())   # str.split() treats U+00A0 as whitespace
 
 
 def norm_lines(lines, drop_empty=True):
